@@ -22,7 +22,7 @@ C09-b along every CFG path the classified writes occur in the order BA<BH<PA<PH 
 C09-c after each write a call reaching Sync() on the same file occurs before the next write or a success return, and the sync error is propagated;
 C09-e the error of every WriteAt leads to an error return;
 C09-f in every function reachable from gpt.Read that computes a CRC-32, every success return is dominated by the equal-edge of the comparison of that CRC with a stored value, the header CRC range covers every decoded header byte, and the entries that are decoded are exactly the checksummed buffer;
-C09-g content errors (header decode error, entries CRC mismatch) are wrapped in the error type that gpt.Read tests with errors.As, and on that edge every success return passes the backup read at (diskSize/lbs)-1.
+C09-g content errors (header decode error, entries CRC mismatch) are wrapped in the error type that gpt.Read tests with errors.As, and on that edge every success return passes the backup read at (diskSize/lbs)-1. Behind the nil-error edge of the backup read no error return is reachable: a backup that validated is handed out.
 Argument: with sector-atomic writes and Sync as a barrier, at any cut at most one region is in flight, all earlier regions are new and all later ones old; by C09-b the reachable disk states are {backup in flight, primary old}, {backup new, primary old}, {primary array in flight/new, primary header old}, {primary header old|new}; C09-f/g make the reader return the old list, or the new list from the fully written backup, in each. Decides the mechanism, not the run-time behaviour.`)
 }
 
